@@ -15,6 +15,7 @@ INVARIANT TraceUnchanged
 INVARIANT PointMass
 INVARIANT ScaleFree
 INVARIANT FitsInv
+INVARIANT OrderReductionSound
 CONSTRAINT Emit
 CHECK_DEADLOCK FALSE
 INVARIANT MedianIsASample
